@@ -248,6 +248,9 @@ func (w *World) forgeProofStep() bool {
 	w.action("forge-proof")
 	w.stats.Fault("byz.forged-block-proof")
 	w.use("byz.forged-block-proof/" + name)
+	if w.ch.Pick("forge-overlap", 3) == 2 && w.judgeProofOverlapped(victim, offered, raw, h, soft, name) {
+		return true
+	}
 	// both modes, in a tape-chosen order, on the same node: an answer must not depend on what was asked before
 	w.judgeProof(victim, offered, raw, h, soft, name)
 	if w.viol == nil {
@@ -256,6 +259,95 @@ func (w *World) forgeProofStep() bool {
 	if w.viol == nil && w.ch.Pick("forge-again", 3) == 2 {
 		w.judgeProof(victim, offered, raw, h, soft, name)
 	}
+	return true
+}
+
+// kmHold: one consumer thread's ValidateBlockConsensus call is held inside its count-th signature verification (a slow
+// KeyManager), so that another consumer thread's call on the same instance runs start to finish in between.
+type kmHold struct {
+	node   int
+	count  int
+	parked bool
+	ch     chan struct{}
+}
+
+// judgeProofOverlapped: ValidateBlockConsensus is called by consumer threads, so two calls on one instance may
+// overlap. The forged certificate is validated on one thread, held in the middle; a genuine pair is validated on
+// another thread meanwhile; then the first call finishes. Both answers are judged as usual.
+func (w *World) judgeProofOverlapped(victim *Node, offered interfaces.Block, raw []byte, h uint64, soft bool, name string) bool {
+	// a genuine pair of some height, with its predecessor
+	var g *StoredBlock
+	var gh uint64
+	for _, p := range w.honest() {
+		for hh, sb := range p.store {
+			if g == nil || hh > gh {
+				g, gh = sb, hh
+			}
+		}
+	}
+	if g == nil {
+		return false
+	}
+	var gPrevB interfaces.Block
+	var gPrevP []byte
+	if gh > 1 {
+		b, p := w.prevOf(gh)
+		if b == nil {
+			return false
+		}
+		gPrevB, gPrevP = b, p
+	}
+	var prevB interfaces.Block
+	var prevP []byte
+	if h > 1 {
+		b, p := w.prevOf(h)
+		if b == nil {
+			return false
+		}
+		prevB, prevP = b, p
+	}
+	hold := &kmHold{node: victim.idx, count: 1 + w.ch.Pick("overlap-at", 4), ch: make(chan struct{})}
+	w.kmHold = hold
+	type res struct {
+		err      error
+		panicked bool
+	}
+	out := make(chan res, 1)
+	lh := victim.lh
+	go func() {
+		var r res
+		func() {
+			defer func() {
+				if x := recover(); x != nil {
+					r.panicked, r.err = true, fmt.Errorf("panic: %v", x)
+				}
+			}()
+			r.err = lh.ValidateBlockConsensus(context.Background(), offered, raw, prevB, prevP, soft)
+		}()
+		out <- r
+	}()
+	simWait()
+	hold.count = 0 // whatever happens next is not held
+	if hold.parked {
+		w.probe("validation-overlapped")
+		w.stats.Fault("validate-calls-overlap")
+	}
+	var gErr error
+	func() {
+		defer func() {
+			if x := recover(); x != nil {
+				gErr = fmt.Errorf("panic: %v", x)
+				w.violate("C02", "validator-panicked", "ValidateBlockConsensus panicked on a genuine pair while another call was in progress: %v", x)
+			}
+		}()
+		gErr = lh.ValidateBlockConsensus(context.Background(), g.block, g.proof, gPrevB, gPrevP, false)
+	}()
+	w.ev("offer-proof n%d genuine h%d (during a held validation) -> err=%v", victim.idx, gh, gErr)
+	close(hold.ch)
+	simWait()
+	w.kmHold = nil
+	r := <-out
+	w.judgeVerdict(victim, offered, raw, h, soft, name+"(overlapped)", r.err, r.panicked)
 	return true
 }
 
@@ -289,6 +381,11 @@ func (w *World) judgeProof(victim *Node, offered interfaces.Block, raw []byte, h
 		}()
 		_, _ = leanhelix.GetMemberIdsFromBlockProof(raw)
 	}()
+	w.judgeVerdict(victim, offered, raw, h, soft, name, err, panicked)
+}
+
+// judgeVerdict compares what the real validator answered with the reference predicate.
+func (w *World) judgeVerdict(victim *Node, offered interfaces.Block, raw []byte, h uint64, soft bool, name string, err error, panicked bool) {
 	w.ev("offer-proof n%d %s h%d soft=%v bytes=%s -> err=%v", victim.idx, name, h, soft, shortHash(raw), err)
 	if panicked {
 		w.violate("C02", "validator-panicked", "ValidateBlockConsensus panicked on a %s proof: %v", name, err)
